@@ -8,7 +8,7 @@ RETRY_TIMING = True
 CORRESPONDENCE = c07.CORRESPONDENCE
 RULE = ("sched: one or two shutdown calls (threads / tasks x0, x1) inserted at every position of every order of the critical sections of "
         "1..2 senders x 1..2 sends and of 3 senders x 1 send (sampled), with 0..3 connections parked beforehand, maintenance passes before, "
-        "between and after, peer faults; drop of the last handle with parked connections and a sleeping maintenance worker. Checked on the "
+        "between and after, peer faults; shutdown of a pool some of whose parked connections the peer has closed (every subset of 2 and 3); drop of the last handle with parked connections and a sleeping maintenance worker. Checked on the "
         "observations: after a shutdown the Debug output says SHUT DOWN, every connection ever opened ends closed (QUIT + close for the "
         "ones parked or in use, the peer's own close otherwise), no thread named lettre-connection-pool and no open socket is left after "
         "the drop, the schedule runs to completion (nothing blocks); against the model: a send whose check-out comes after the shutdown "
@@ -50,6 +50,15 @@ def gen(tier, rng):
             ret = ["s0"] if kind == "s" else ["r0"]
             cases.append(sg.line(kind, 3, pre, 60000, 1, 1, [], sg.prefill(pre) + ["m", "s0"] + ret))
             cases.append(sg.line(kind, 3, pre, 60000, 0, 0, [], sg.prefill(pre)))
+    # some of the parked connections were closed by the peer in the meantime: each of the others still gets its QUIT
+    import itertools
+    for kind in "sa":
+        for pre in (2, 3):
+            for r in range(1, pre):
+                for dead in itertools.combinations(range(pre), r):
+                    faults = [f"{c}:d0" for c in dead]
+                    cases.append(sg.line(kind, 3, pre, 60000, 1, 1, faults, sg.prefill(pre) + ["x0"]))
+                    cases.append(sg.line(kind, 3, pre, 60000, 1, 1, faults, sg.prefill(pre) + ["x0", "s0"]))
     # the moment shutdown returns: every idle connection already has its QUIT (the peer's log is read right then; tokio on a
     # current-thread runtime), and a connection being closed towards a peer that answers QUIT 2 s late delays neither a second
     # shutdown nor a send
